@@ -78,6 +78,8 @@ func applyColor(args []bool) string {
 
 const c11maxLoggers = 5
 
+const c11Plain = slog.Level(41) // registered without colours
+
 // modelOps lists the operations enabled in a model state (same order as c11world.ops).
 func (m c11model) modelOps() []c11op {
 	var ops []c11op
@@ -130,6 +132,7 @@ type c11world struct {
 func c11new(root int) *c11world {
 	resetGlobals()
 	slog.SetFlags(slog.LstdFlags &^ slog.Lcaller)
+	_ = slog.RegisterLevel(c11Plain, "plain41", slog.RegWithTreatedAsLevel(slog.InfoLevel))
 	w := &c11world{rec: &recorder{}}
 	wr := &plainW{"w", w.rec}
 	var r *slog.Entry
@@ -236,14 +239,20 @@ func (w *c11world) check(probe bool) (clause, detail string) {
 		if wantP := w.model.parent[i]; wantP >= 0 && l.Parent() != w.loggers[wantP] {
 			return "tree", fmt.Sprintf("logger L%d: parent is not L%d", i, wantP)
 		}
-		if probe {
-			w.rec.reset()
-			l.WriteThru(bg, slog.InfoLevel, fixedTime, 0, "probe", slog.Attrs{slog.Int("k", 1)})
-			if len(w.rec.events) != 1 {
-				return "record-shape", fmt.Sprintf("logger L%d: %d writes for the probe", i, len(w.rec.events))
+		{
+			sevs := []slog.Level{slog.InfoLevel, c11Plain, slog.Level(77)}
+			if !probe {
+				sevs = sevs[:1] // intermediate states: one record per logger; final state: all three severities
 			}
-			if got := classifyRecord(w.rec.events[0].Payload); got != want {
-				return "record-shape", fmt.Sprintf("logger L%d: model state %s but the record looks like %s: %.120q", i, want, got, w.rec.events[0].Payload)
+			for _, sev := range sevs {
+				w.rec.reset()
+				l.WriteThru(bg, sev, fixedTime, 0, "probe", slog.Attrs{slog.Int("k", 1)})
+				if len(w.rec.events) != 1 {
+					return "record-shape", fmt.Sprintf("logger L%d: %d writes for the probe", i, len(w.rec.events))
+				}
+				if got := classifyRecord(w.rec.events[0].Payload); got != want {
+					return "record-shape", fmt.Sprintf("logger L%d: model state %s but a record at severity %s looks like %s: %.120q", i, want, levelName(sev), got, w.rec.events[0].Payload)
+				}
 			}
 		}
 	}
@@ -277,7 +286,7 @@ func c11replay(cas c11case, probeAll bool) (*Violation, string) {
 		if pan := w.apply(o); pan != "" {
 			return mk("op-returns", o.String()+": "+firstLine(pan), i+1), ""
 		}
-		if cl, d := w.check(probeAll || i == len(cas.Ops)-1); cl != "" {
+		if cl, d := w.check(probeAll || i == len(cas.Ops)-1); cl != "" { // every logger emits a record after EVERY operation (three severities in the final state)
 			return mk(cl, d, i+1), ""
 		}
 	}
